@@ -233,7 +233,78 @@ func init() {
 		},
 	}
 	p.Campaigns = []*Campaign{{
-		Name: "histories", Weight: 1,
+		// distances are Hamming distances: pairs at every exact distance 0..256 (0..64 for the
+		// 64-bit hash), plus symmetry, identity and the triangle inequality on a third hash
+		Name: "distances", Enumerated: true, Weight: 1,
+		N: func(tier string, seed uint64) uint64 { return 257 },
+		Run: func(c *Ctx) {
+			n := int(c.Run)
+			r := core.NewSplitMix(uint64(n)*977 + c.Seed)
+			var a, b, d [4]uint64
+			for i := range a {
+				a[i], d[i] = r.Next(), r.Next()
+			}
+			b = a
+			perm := make([]int, 256)
+			for i := range perm {
+				perm[i] = i
+			}
+			for i := 255; i > 0; i-- {
+				k := r.Intn(i + 1)
+				perm[i], perm[k] = perm[k], perm[i]
+			}
+			for _, bit := range perm[:n] {
+				b[bit/64] ^= 1 << uint(bit%64)
+			}
+			c.Descf("256-bit hashes at Hamming distance %d", n)
+			if c.PlanOnly {
+				return
+			}
+			c.Dev.Seq++
+			pop := func(x, y [4]uint64) int {
+				t := 0
+				for i := range x {
+					t += bits.OnesCount64(x[i] ^ y[i])
+				}
+				return t
+			}
+			if pi := harness.Guard(func() {
+				if g := harness.Distance256(a, b); g != n || harness.Distance256(b, a) != n {
+					c.Fail("mismatch", "PHash256.Distance", "hamming", fmt.Sprintf("hashes differing in exactly %d bits have distance %d / %d", n, g, harness.Distance256(b, a)))
+					return
+				}
+				if harness.Distance256(a, a) != 0 {
+					c.Fail("mismatch", "PHash256.Distance", "hamming", "d(a,a) != 0")
+					return
+				}
+				if harness.Distance256(a, d) != pop(a, d) || harness.Distance256(a, d) > harness.Distance256(a, b)+harness.Distance256(b, d) {
+					c.Fail("mismatch", "PHash256.Distance", "hamming", "distance is not popcount(a^b) or violates the triangle inequality")
+					return
+				}
+				if n <= 64 {
+					x, y := a[0], a[0]
+					m := 0
+					for _, bit := range perm {
+						if m == n {
+							break
+						}
+						if bit < 64 {
+							y ^= 1 << uint(bit)
+							m++
+						}
+					}
+					if g := harness.Distance64(x, y); g != m || harness.Distance64(y, x) != m {
+						c.Fail("mismatch", "PHash64.Distance", "hamming", fmt.Sprintf("64-bit hashes differing in exactly %d bits have distance %d", m, g))
+					}
+				}
+			}); pi != nil {
+				c.Fail("mismatch", "Distance", "panic", pi.Value)
+			}
+			c.NonTrivial = true
+			c.D.Int(n)
+		},
+	}, {
+		Name: "histories", Weight: 8,
 		N: func(tier string, seed uint64) uint64 {
 			if tier == "thorough" {
 				return 600000
